@@ -100,7 +100,7 @@ def patch_namespace():
 class Namespace(argparse.Namespace):
     """Extension of argparse's Namespace to support nesting and subscript access."""
 
-    def __init__(self, *args, **kwargs):
+    def __init__(*args, **kwargs):
         """Initializer for Namespace objects.
 
         Instantiating a Namespace with initial values most commonly is done by
@@ -108,8 +108,10 @@ class Namespace(argparse.Namespace):
         name2=value2)``. Alternatively a single positional ``Namespace`` or
         ``dict`` object can be given.
         """
+        self, *args = args  # (not a named parameter, so that a key can be called 'self' like any other)
         if len(args) == 0:
-            super().__init__(**kwargs)
+            for name, value in kwargs.items():
+                setattr(self, name, value)
         else:
             if len(kwargs) != 0 or len(args) != 1 or not isinstance(args[0], (argparse.Namespace, dict)):
                 raise ValueError("Expected a single positional parameter of type Namespace or dict.")
